@@ -275,15 +275,15 @@ Section Sponge.
     assert (Hmod : Nat.modulo (length msg) r = b).
     { subst msg. rewrite app_length, Hpre. fold b. rewrite Nat.add_comm, Nat.mod_add by lia.
       apply Nat.mod_small. lia. }
-    assert (Hfinal : forall blockst T,
+    assert (Hfinal : forall st0 blockst T,
       length blockst = r ->
       blockst = rest ++ pad101 r ds (length msg) ->
       length (blockst ++ T) = 136 ->
       exists d', (d3 <- permute f (mkSponge a (blockst ++ T) 0%Z (Z.of_nat r) r ds ol) ;;
                   Ok (setBuf d3 0 (Z.of_nat (sp_rate d3)))) = Ok d' /\
-                 PostSum d' /\ same_cfg (mkSponge a st 0%Z bs r ds ol) d' /\
+                 PostSum d' /\ same_cfg (mkSponge a st0 0%Z bs r ds ol) d' /\
                  sp_a d' = absorb f r s0 (msg ++ pad101 r ds (length msg))).
-    { intros blk T Hbl Hblk Hlen.
+    { intros st0 blk T Hbl Hblk Hlen.
       unfold permute, buf. proj. rewrite go_slice_prefix by lia.
       rewrite firstn_app_exact by exact Hbl. cbn [bind]. unfold xorIn.
       rewrite xorIn_unaligned_block by (rewrite Hbl; exact Hr). cbn [bind]. proj.
@@ -294,8 +294,9 @@ Section Sponge.
     destruct (Nat.eq_dec (b + 1) r) as [Eq1|Ne1].
     - (* one byte of room: the domain byte and the final bit share the last byte *)
       rewrite zero_range_noop by lia. cbn [bind].
-      replace r with (S b) at 1 by lia.
       change (rest ++ [ds] ++ T1) with (rest ++ ds :: T1).
+      replace (flip_last (rest ++ ds :: T1) r) with (flip_last (rest ++ ds :: T1) (S b))
+        by (f_equal; lia).
       rewrite (flip_last_app rest T1 ds b eq_refl). cbn [bind].
       unfold with_storage. proj.
       change (rest ++ N.lxor ds 128 :: T1) with (rest ++ [N.lxor ds 128] ++ T1).
@@ -314,24 +315,26 @@ Section Sponge.
       rewrite (zero_range_app (rest ++ [ds]) M T2 (b + 1) r)
         by (try rewrite app_length; fold b; cbn [length]; lia).
       cbn [bind].
-      replace (r - (b + 1)) with (S (r - b - 2)) by lia. rewrite repeat_snoc.
-      replace r with (S (r - 1)) at 1 by lia.
-      rewrite <- (app_assoc (repeat 0%N (r - b - 2))). rewrite (app_assoc (rest ++ [ds])).
-      cbn [app].
-      rewrite (flip_last_app ((rest ++ [ds]) ++ repeat 0%N (r - b - 2)) T2 0%N (r - 1))
-        by (rewrite !app_length, repeat_length; fold b; cbn [length]; lia).
+      set (A := (rest ++ [ds]) ++ repeat 0%N (r - b - 2)).
+      assert (HA : length A = r - 1)
+        by (unfold A; rewrite !app_length, repeat_length; fold b; cbn [length]; lia).
+      assert (HX : (rest ++ [ds]) ++ repeat 0%N (r - (b + 1)) ++ T2 = A ++ 0%N :: T2).
+      { unfold A. replace (r - (b + 1)) with (S (r - b - 2)) by lia. rewrite repeat_snoc.
+        rewrite <- !app_assoc. reflexivity. }
+      rewrite HX.
+      replace (flip_last (A ++ 0%N :: T2) r) with (flip_last (A ++ 0%N :: T2) (S (r - 1)))
+        by (f_equal; lia).
+      rewrite (flip_last_app A T2 0%N (r - 1) HA).
       cbn [bind]. unfold with_storage. proj.
       change (N.lxor 0 128) with 128%N.
-      change (((rest ++ [ds]) ++ repeat 0%N (r - b - 2)) ++ 128%N :: T2)
-        with (((rest ++ [ds]) ++ repeat 0%N (r - b - 2)) ++ [128%N] ++ T2).
+      change (A ++ 128%N :: T2) with (A ++ [128%N] ++ T2).
       rewrite app_assoc.
       apply Hfinal.
-      + rewrite !app_length, repeat_length. fold b. cbn [length]. lia.
+      + rewrite app_length, HA. cbn [length]. lia.
       + unfold pad101. rewrite Hmod.
         replace (Nat.eqb (r - b) 1) with false by (symmetry; apply Nat.eqb_neq; lia).
-        replace (r - b - 2) with (r - b - 2) by reflexivity.
-        rewrite <- !app_assoc. reflexivity.
-      + rewrite !app_length, repeat_length. fold b. cbn [length]. lia.
+        unfold A. rewrite <- !app_assoc. reflexivity.
+      + rewrite !app_length, HA. cbn [length]. lia.
   Qed.
 
   Lemma sum_abs s0 d msg :
@@ -346,7 +349,391 @@ Section Sponge.
     exists d'. unfold sum. rewrite Hp. cbn [bind].
     destruct Hcfg as (C1 & C2 & C3). rewrite C3, Ha.
     destruct Habs as (Hr & _). destruct (rate_ok_bounds _ Hr).
-    rewrite copyOut_short by lia. rewrite squeeze_short by exact Hout.
+    rewrite copyOut_short by lia. rewrite squeeze_short; [|assumption|exact Hout].
     split; [reflexivity|]. split; [exact Hps|repeat split; assumption].
   Qed.
 End Sponge.
+
+(* ---------- every API call on a well-formed object: no panic, well-formed result ---------- *)
+Lemma splice_length (l src : list N) off : off <= length l -> length (splice l off src) = length l.
+Proof.
+  intro H. unfold splice. rewrite !app_length, !firstn_length, skipn_length. lia.
+Qed.
+
+Lemma splice_nil (l : list N) off : off <= length l -> splice l off [] = l.
+Proof.
+  intro H. unfold splice. cbn [length Nat.min firstn app]. rewrite Nat.add_0_r. apply firstn_skipn.
+Qed.
+
+Lemma flip_last_ok (st : list N) r :
+  0 < r -> r <= length st -> exists st', flip_last st r = Ok st' /\ length st' = length st.
+Proof.
+  intros H0 H1. destruct r as [|r']; [lia|]. unfold flip_last.
+  replace (Nat.ltb r' (length st)) with true by (symmetry; apply Nat.ltb_lt; lia).
+  eexists. split; [reflexivity|].
+  rewrite !app_length, firstn_length, skipn_length. cbn [length]. lia.
+Qed.
+
+Section SpongeOps.
+  Variable f : list N -> list N.
+
+  Definition digest_after (d : sponge) (chunks : list (list N)) : res (list N) :=
+    d1 <- writes f d chunks ;; hd <- sum f d1 ;; Ok (fst hd).
+
+  Lemma absorbing_wf s0 d msg : Absorbing f s0 d msg -> sp_outLen d <= sp_rate d -> WF d.
+  Proof.
+    intros (Hr & Hst & Hidx & pre & rest & k & _ & _ & Hrest & Hbs & _) Hout.
+    split; [repeat split; assumption|]. right. split; [exact Hidx|lia].
+  Qed.
+
+  Lemma postsum_wf d : PostSum d -> sp_outLen d <= sp_rate d -> WF d.
+  Proof.
+    intros (Hr & Hst & Hidx & Hbs) Hout.
+    split; [repeat split; assumption|]. right. split; [exact Hidx|lia].
+  Qed.
+
+  Lemma fresh_nil d : Fresh d -> bufIsNil d = true.
+  Proof. intros (_ & H & _). unfold bufIsNil. rewrite H. apply Z.eqb_refl. Qed.
+
+  Lemma write_fresh d p : Fresh d -> write f d p = write f (setBuf d 0 0) p.
+  Proof.
+    intro H. unfold write. rewrite (fresh_nil d H).
+    unfold bufIsNil. proj. rewrite bufNil_val. reflexivity.
+  Qed.
+
+  Lemma sum_fresh d : Fresh d -> sum f d = sum f (setBuf d 0 0).
+  Proof.
+    intro H. unfold sum, padAndPermute. rewrite (fresh_nil d H).
+    unfold bufIsNil. proj. rewrite bufNil_val. reflexivity.
+  Qed.
+
+  (* first Write after SumHash without Reset: the padded block still in the buffer is
+     absorbed once more, then writing goes on (the Go comment says Reset is required) *)
+  Lemma postsum_write d p :
+    PostSum d -> exists d', write f d p = Ok d' /\ same_cfg d d' /\
+      (PostSum d' \/ exists s0 msg, Absorbing f s0 d' msg).
+  Proof.
+    intros (Hr & Hst & Hidx & Hbs).
+    destruct (rate_ok_bounds _ Hr) as [Hr0 Hrm].
+    assert (Hnil : bufIsNil d = false).
+    { unfold bufIsNil. rewrite bufNil_val, Hbs. apply Z.eqb_neq. lia. }
+    unfold write. rewrite Hnil.
+    destruct p as [|x p].
+    { exists d. split; [reflexivity|]. split; [apply same_cfg_refl|]. left. repeat split; assumption. }
+    replace (2 * length (x :: p) + 2) with (S (2 * length (x :: p) + 1)) by lia.
+    cbn [write_loop].
+    destruct d as [a st bi bs r ds ol]. proj. subst bi bs. rewrite maxRate_val in *.
+    unfold write_iter. proj.
+    replace ((Z.of_nat r =? 0)%Z) with false by (symmetry; apply Z.eqb_neq; lia).
+    cbn [andb].
+    replace (Z.min (Z.of_nat r - Z.of_nat r) (zlen (x :: p))) with 0%Z by (unfold zlen; lia).
+    cbn [Z.ltb Z.compare Z.to_nat firstn skipn].
+    unfold appendBuf. proj.
+    replace ((0 <=? 0 + Z.of_nat r)%Z && (0 + Z.of_nat r <=? zlen st)%Z) with true
+      by (symmetry; apply andb_true_iff; split; apply Z.leb_le; unfold zlen; lia).
+    rewrite splice_nil by lia. cbn [bind]. proj.
+    replace (Z.of_nat r + zlen [])%Z with (Z.of_nat r) by (unfold zlen; cbn [length]; lia).
+    rewrite Z.eqb_refl.
+    unfold permute, buf. proj. rewrite go_slice_prefix by lia. cbn [bind].
+    unfold xorIn. rewrite xorIn_unaligned_block by (rewrite firstn_length, Nat.min_l by lia; exact Hr).
+    cbn [bind]. proj.
+    set (a1 := f (xor_block a (firstn r st))).
+    assert (Habs : Absorbing f a1 (mkSponge a1 st 0%Z 0%Z r ds ol) []).
+    { unfold Absorbing. proj. split; [exact Hr|]. split; [rewrite maxRate_val; exact Hst|].
+      split; [reflexivity|]. exists [], [], 0. cbn [length app firstn].
+      repeat split; try reflexivity; lia. }
+    destruct (write_loop_abs f (length (x :: p)) (x :: p) (2 * length (x :: p) + 1) a1 _ [] (le_n _)
+                ltac:(lia) Habs) as (d' & Hl & Habs' & Hcfg).
+    exists d'. split; [exact Hl|]. split; [exact Hcfg|]. right. eauto.
+  Qed.
+
+  Lemma postsum_sum d :
+    PostSum d -> exists h d', sum f d = Ok (h, d') /\ PostSum d' /\ same_cfg d d'.
+  Proof.
+    intros (Hr & Hst & Hidx & Hbs).
+    destruct (rate_ok_bounds _ Hr) as [Hr0 Hrm].
+    assert (Hnil : bufIsNil d = false).
+    { unfold bufIsNil. rewrite bufNil_val, Hbs. apply Z.eqb_neq. lia. }
+    unfold sum, padAndPermute. rewrite Hnil.
+    destruct d as [a st bi bs r ds ol]. proj. subst bi bs. rewrite maxRate_val in *.
+    unfold appendBuf. proj.
+    replace ((0 <=? 0 + Z.of_nat r)%Z && (0 + Z.of_nat r <=? zlen st)%Z) with true
+      by (symmetry; apply andb_true_iff; split; apply Z.leb_le; unfold zlen; lia).
+    cbn [bind]. proj.
+    set (st1 := splice st (Z.to_nat (0 + Z.of_nat r)) [ds]).
+    assert (Hst1 : length st1 = 136) by (unfold st1; rewrite splice_length; lia).
+    unfold buf. proj. rewrite go_slice_prefix by lia. cbn [bind].
+    replace (Z.of_nat r + zlen [ds])%Z with (Z.of_nat (r + 1)) by (unfold zlen; cbn [length]; lia).
+    rewrite zero_range_noop by lia. cbn [bind].
+    destruct (flip_last_ok st1 r Hr0 ltac:(lia)) as (st2 & Hfl & Hst2).
+    rewrite Hfl. cbn [bind]. unfold with_storage, permute, buf. proj.
+    rewrite go_slice_prefix by lia. cbn [bind].
+    unfold xorIn. rewrite xorIn_unaligned_block by (rewrite firstn_length, Nat.min_l by lia; exact Hr).
+    cbn [bind]. proj.
+    eexists _, _. split; [reflexivity|]. split; [|repeat split].
+    unfold PostSum. proj. rewrite maxRate_val. repeat split; auto. lia.
+  Qed.
+
+  Lemma wf_write d p : WF d -> exists d', write f d p = Ok d' /\ WF d' /\ same_cfg d d'.
+  Proof.
+    intros [Hc [Hfr|[Hidx Hbs]]].
+    - rewrite write_fresh by exact Hfr.
+      destruct (write_abs f _ _ [] p (fresh_absorbing f d Hc Hfr)) as (d' & Hw & Habs & Hcfg).
+      exists d'. split; [exact Hw|]. destruct Hcfg as (C1 & C2 & C3). proj.
+      split; [|repeat split; assumption].
+      eapply absorbing_wf; [exact Habs|]. destruct Hc as (_ & Ho & _). lia.
+    - destruct (Z.eq_dec (sp_bufSize d) (Z.of_nat (sp_rate d))) as [E|E].
+      + destruct Hc as (Hr & Ho & Hst).
+        destruct (postsum_write d p) as (d' & Hw & Hcfg & Hd'); [repeat split; assumption|].
+        exists d'. split; [exact Hw|]. split; [|exact Hcfg].
+        destruct Hcfg as (C1 & C2 & C3).
+        destruct Hd' as [Hps|(s0 & msg & Habs)].
+        * apply postsum_wf; [exact Hps|lia].
+        * eapply absorbing_wf; [exact Habs|lia].
+      + destruct (write_abs f _ _ _ p (live_absorbing f d Hc Hidx ltac:(lia))) as (d' & Hw & Habs & Hcfg).
+        exists d'. split; [exact Hw|]. split; [|exact Hcfg].
+        destruct Hcfg as (C1 & C2 & C3). destruct Hc as (_ & Ho & _).
+        eapply absorbing_wf; [exact Habs|lia].
+  Qed.
+
+  Lemma wf_sum d : WF d -> exists h d', sum f d = Ok (h, d') /\ WF d' /\ same_cfg d d'.
+  Proof.
+    intros [Hc [Hfr|[Hidx Hbs]]].
+    - rewrite sum_fresh by exact Hfr.
+      destruct Hc as (Hr & Ho & Hst).
+      destruct (sum_abs f _ _ [] (fresh_absorbing f d (conj Hr (conj Ho Hst)) Hfr) Ho) as (d' & Hs & Hps & Hcfg).
+      eexists _, d'. split; [exact Hs|]. destruct Hcfg as (C1 & C2 & C3). proj.
+      split; [apply postsum_wf; [exact Hps|lia]|repeat split; assumption].
+    - destruct (Z.eq_dec (sp_bufSize d) (Z.of_nat (sp_rate d))) as [E|E].
+      + destruct Hc as (Hr & Ho & Hst).
+        destruct (postsum_sum d) as (h & d' & Hs & Hps & Hcfg); [repeat split; assumption|].
+        exists h, d'. split; [exact Hs|]. split; [|exact Hcfg].
+        destruct Hcfg as (C1 & C2 & C3). apply postsum_wf; [exact Hps|lia].
+      + pose proof Hc as (Hr & Ho & Hst).
+        destruct (sum_abs f _ _ _ (live_absorbing f d Hc Hidx ltac:(lia)) Ho) as (d' & Hs & Hps & Hcfg).
+        eexists _, d'. split; [exact Hs|]. split; [|exact Hcfg].
+        destruct Hcfg as (C1 & C2 & C3). apply postsum_wf; [exact Hps|lia].
+  Qed.
+
+  Lemma wf_reset d : WF d -> WF (reset d) /\ same_cfg d (reset d).
+  Proof.
+    intros [(Hr & Ho & Hst) _]. split; [|repeat split].
+    split; [repeat split; assumption|]. right. unfold reset, Live. proj. split; [reflexivity|lia].
+  Qed.
+
+  (* ---------- the digests ---------- *)
+  Lemma absorbing_digest s0 d msg chunks :
+    Absorbing f s0 d msg -> sp_outLen d <= sp_rate d ->
+    exists d1 d2, writes f d chunks = Ok d1 /\
+      sum f d1 = Ok (squeeze f (sp_rate d)
+                       (absorb f (sp_rate d) s0
+                          ((msg ++ concat chunks) ++
+                           pad101 (sp_rate d) (sp_ds d) (length (msg ++ concat chunks))))
+                       (sp_outLen d), d2) /\
+      WF d2 /\ same_cfg d d2.
+  Proof.
+    intros Habs Ho.
+    destruct (writes_abs f chunks s0 d msg Habs) as (d1 & Hw & Habs1 & (C1 & C2 & C3)).
+    destruct (sum_abs f s0 d1 _ Habs1 ltac:(lia)) as (d2 & Hs & Hps & (D1 & D2 & D3)).
+    exists d1, d2. split; [exact Hw|]. rewrite C1, C2, C3 in Hs. split; [exact Hs|].
+    split; [apply postsum_wf; [exact Hps|lia]|repeat split; congruence].
+  Qed.
+
+  Lemma reset_then_chunks d chunks :
+    WF d ->
+    exists d1 d2, writes f (reset d) chunks = Ok d1 /\
+      sum f d1 = Ok (sponge_hash f (sp_rate d) (sp_ds d) (sp_outLen d) (concat chunks), d2) /\
+      WF d2 /\ same_cfg d d2.
+  Proof.
+    intros [Hc _]. pose proof Hc as (Hr & Ho & Hst).
+    destruct (absorbing_digest zero_state (reset d) [] chunks (reset_absorbing f d Hc) Ho)
+      as (d1 & d2 & Hw & Hs & Hwf & Hcfg).
+    exists d1, d2. split; [exact Hw|]. split; [exact Hs|]. split; [exact Hwf|exact Hcfg].
+  Qed.
+
+  Lemma fresh_then_chunks d chunks :
+    cfg_ok d -> Fresh d ->
+    exists d1 d2, writes f d chunks = Ok d1 /\
+      sum f d1 = Ok (sponge_hash f (sp_rate d) (sp_ds d) (sp_outLen d) (concat chunks), d2) /\
+      WF d2 /\ same_cfg d d2.
+  Proof.
+    intros Hc Hfr. pose proof Hc as (Hr & Ho & Hst).
+    pose proof (fresh_absorbing f d Hc Hfr) as Habs.
+    destruct chunks as [|c chunks].
+    - destruct (absorbing_digest zero_state _ [] [] Habs Ho) as (d1 & d2 & Hw & Hs & Hwf & Hcfg).
+      cbn [writes] in Hw. injection Hw as <-.
+      exists d, d2. split; [reflexivity|]. rewrite sum_fresh by exact Hfr.
+      split; [exact Hs|]. split; [exact Hwf|exact Hcfg].
+    - destruct (absorbing_digest zero_state _ [] (c :: chunks) Habs Ho) as (d1 & d2 & Hw & Hs & Hwf & Hcfg).
+      exists d1, d2. cbn [writes]. rewrite write_fresh by exact Hfr.
+      split; [exact Hw|]. split; [exact Hs|]. split; [exact Hwf|exact Hcfg].
+  Qed.
+
+  Lemma compute_hash_spec d x :
+    WF d ->
+    exists d', computeHash f d x = Ok (sponge_hash f (sp_rate d) (sp_ds d) (sp_outLen d) x, d') /\
+               WF d' /\ same_cfg d d'.
+  Proof.
+    intro Hwf. destruct (reset_then_chunks d [x] Hwf) as (d1 & d2 & Hw & Hs & Hwf2 & Hcfg).
+    cbn [writes] in Hw. cbn [concat] in Hs. rewrite app_nil_r in Hs.
+    unfold computeHash. destruct (write f (reset d) x) as [d1'| |]; cbn [bind] in *; try discriminate.
+    injection Hw as ->. exists d2. split; [exact Hs|]. split; [exact Hwf2|exact Hcfg].
+  Qed.
+
+  Lemma run_ops_wf ops : forall d,
+    WF d -> exists outs d', run_ops f d ops = Ok (outs, d') /\ WF d' /\ same_cfg d d'.
+  Proof.
+    induction ops as [|o ops IH]; intros d Hwf.
+    - exists [], d. split; [reflexivity|]. split; [exact Hwf|apply same_cfg_refl].
+    - destruct o as [p| | |x]; cbn [run_ops].
+      + destruct (wf_write d p Hwf) as (d1 & Hw & Hwf1 & Hc1).
+        destruct (IH d1 Hwf1) as (outs & d2 & Hr & Hwf2 & Hc2).
+        exists outs, d2. rewrite Hw. cbn [bind]. split; [exact Hr|]. split; [exact Hwf2|].
+        eapply same_cfg_trans; eassumption.
+      + destruct (wf_sum d Hwf) as (h & d1 & Hs & Hwf1 & Hc1).
+        destruct (IH d1 Hwf1) as (outs & d2 & Hr & Hwf2 & Hc2).
+        exists (h :: outs), d2. rewrite Hs. cbn [bind fst snd]. rewrite Hr. cbn [bind fst snd].
+        split; [reflexivity|]. split; [exact Hwf2|]. eapply same_cfg_trans; eassumption.
+      + destruct (wf_reset d Hwf) as (Hwf1 & Hc1).
+        destruct (IH _ Hwf1) as (outs & d2 & Hr & Hwf2 & Hc2).
+        exists outs, d2. split; [exact Hr|]. split; [exact Hwf2|]. exact (same_cfg_trans _ _ _ Hc1 Hc2).
+      + destruct (compute_hash_spec d x Hwf) as (d1 & Hs & Hwf1 & Hc1).
+        destruct (IH d1 Hwf1) as (outs & d2 & Hr & Hwf2 & Hc2).
+        eexists (_ :: outs), d2. rewrite Hs. cbn [bind fst snd]. rewrite Hr. cbn [bind fst snd].
+        split; [reflexivity|]. split; [exact Hwf2|]. eapply same_cfg_trans; eassumption.
+  Qed.
+
+  (* bytes of storage beyond bufSize never influence a digest *)
+  Lemma stale_storage d st' chunks :
+    cfg_ok d -> sp_bufIndex d = 0%Z -> (0 <= sp_bufSize d < Z.of_nat (sp_rate d))%Z ->
+    length st' = maxRate ->
+    firstn (Z.to_nat (sp_bufSize d)) st' = firstn (Z.to_nat (sp_bufSize d)) (sp_storage d) ->
+    digest_after (with_storage d st') chunks = digest_after d chunks /\
+    exists h, digest_after d chunks = Ok h.
+  Proof.
+    intros Hc Hidx Hbs Hlen Hpre. pose proof Hc as (Hr & Ho & Hst).
+    pose proof (live_absorbing f d Hc Hidx Hbs) as A1.
+    assert (Hc' : cfg_ok (with_storage d st')) by (unfold cfg_ok; proj; repeat split; assumption).
+    pose proof (live_absorbing f (with_storage d st') Hc' Hidx Hbs) as A2.
+    proj. rewrite Hpre in A2.
+    destruct (absorbing_digest _ _ _ chunks A1 Ho) as (d1 & d2 & Hw1 & Hs1 & _).
+    destruct (absorbing_digest _ _ _ chunks A2 Ho) as (e1 & e2 & Hw2 & Hs2 & _).
+    proj. unfold digest_after. rewrite Hw1, Hw2. cbn [bind]. rewrite Hs1, Hs2. cbn [bind fst].
+    split; [reflexivity|eauto].
+  Qed.
+End SpongeOps.
+
+(* ---------- constructors and the one-shot helper ---------- *)
+Lemma new_sponge_cfg rate ds out :
+  rate_ok rate -> out <= rate -> cfg_ok (new_sponge rate ds out) /\ Fresh (new_sponge rate ds out).
+Proof.
+  intros Hr Ho. unfold new_sponge, cfg_ok, Fresh. proj.
+  repeat split; try assumption; try reflexivity.
+Qed.
+
+Lemma rate_ok_sha3_256 : rate_ok rateSHA3_256. Proof. right. reflexivity. Qed.
+Lemma rate_ok_sha3_384 : rate_ok rateSHA3_384. Proof. left. reflexivity. Qed.
+Lemma rate_ok_keccak_256 : rate_ok rateKeccak_256. Proof. right. reflexivity. Qed.
+
+Lemma new_wf rate ds out : rate_ok rate -> out <= rate -> WF (new_sponge rate ds out).
+Proof. intros Hr Ho. destruct (new_sponge_cfg rate ds out Hr Ho). split; [assumption|now left]. Qed.
+
+Lemma NewSHA3_256_wf : WF NewSHA3_256.
+Proof. apply new_wf; [apply rate_ok_sha3_256|vm_compute; lia]. Qed.
+Lemma NewSHA3_384_wf : WF NewSHA3_384.
+Proof. apply new_wf; [apply rate_ok_sha3_384|vm_compute; lia]. Qed.
+Lemma NewKeccak_256_wf : WF NewKeccak_256.
+Proof. apply new_wf; [apply rate_ok_keccak_256|vm_compute; lia]. Qed.
+
+Lemma oneshot_spec f x :
+  ComputeSHA3_256 f x = Ok (sponge_hash f rateSHA3_256 dsByteSHA3 HashLenSHA3_256 x).
+Proof.
+  assert (Ho : HashLenSHA3_256 <= rateSHA3_256) by (vm_compute; lia).
+  destruct (new_sponge_cfg rateSHA3_256 dsByteSHA3 HashLenSHA3_256 rate_ok_sha3_256 Ho) as [Hc Hfr].
+  unfold ComputeSHA3_256. rewrite write_fresh by exact Hfr.
+  destruct (write_abs f _ _ [] x (fresh_absorbing f _ Hc Hfr)) as (d1 & Hw & Habs & (C1 & C2 & C3)).
+  rewrite Hw. cbn [bind]. cbn [app] in Habs.
+  destruct (pad_abs f _ d1 x Habs) as (d2 & Hp & _ & _ & Ha).
+  rewrite Hp. cbn [bind]. rewrite Ha. proj. unfold new_sponge in *. proj. rewrite C1, C2.
+  rewrite copyOut_short by (vm_compute; lia).
+  unfold sponge_hash. rewrite squeeze_short; [reflexivity|vm_compute; lia|exact Ho].
+Qed.
+
+Lemma oneshot_agrees f x :
+  exists h d', ComputeSHA3_256 f x = Ok h /\ computeHash f NewSHA3_256 x = Ok (h, d') /\
+               h = sponge_hash f rateSHA3_256 dsByteSHA3 HashLenSHA3_256 x.
+Proof.
+  destruct (compute_hash_spec f NewSHA3_256 x NewSHA3_256_wf) as (d' & Hc & _).
+  eexists _, d'. split; [apply oneshot_spec|]. split; [exact Hc|reflexivity].
+Qed.
+
+(* reading the generic digests as the standard functions (f := Keccak-f[1600]) *)
+Lemma cfg_SHA3_256 d m :
+  same_cfg NewSHA3_256 d -> sponge_hash keccakf (sp_rate d) (sp_ds d) (sp_outLen d) m = SHA3_256 m.
+Proof. intros (C1 & C2 & C3). rewrite C1, C2, C3. reflexivity. Qed.
+Lemma cfg_SHA3_384 d m :
+  same_cfg NewSHA3_384 d -> sponge_hash keccakf (sp_rate d) (sp_ds d) (sp_outLen d) m = SHA3_384 m.
+Proof. intros (C1 & C2 & C3). rewrite C1, C2, C3. reflexivity. Qed.
+Lemma cfg_Keccak_256 d m :
+  same_cfg NewKeccak_256 d -> sponge_hash keccakf (sp_rate d) (sp_ds d) (sp_outLen d) m = Keccak_256 m.
+Proof. intros (C1 & C2 & C3). rewrite C1, C2, C3. reflexivity. Qed.
+
+Inductive sponge_alg := SHA3_256_alg | SHA3_384_alg | Keccak_256_alg.
+Definition alg_new (a : sponge_alg) : sponge :=
+  match a with SHA3_256_alg => NewSHA3_256 | SHA3_384_alg => NewSHA3_384 | Keccak_256_alg => NewKeccak_256 end.
+Definition alg_spec (a : sponge_alg) : list N -> list N :=
+  match a with SHA3_256_alg => SHA3_256 | SHA3_384_alg => SHA3_384 | Keccak_256_alg => Keccak_256 end.
+
+Lemma alg_new_wf a : WF (alg_new a).
+Proof. destruct a; [apply NewSHA3_256_wf|apply NewSHA3_384_wf|apply NewKeccak_256_wf]. Qed.
+
+Lemma cfg_alg a d m :
+  same_cfg (alg_new a) d -> sponge_hash keccakf (sp_rate d) (sp_ds d) (sp_outLen d) m = alg_spec a m.
+Proof. destruct a; [apply cfg_SHA3_256|apply cfg_SHA3_384|apply cfg_Keccak_256]. Qed.
+
+(* the headline statement: each algorithm, every well-formed prior state of such an object,
+   every chunking *)
+Lemma sponge_any_chunking a d chunks :
+  WF d -> same_cfg (alg_new a) d ->
+  exists d1 d2, writes keccakf (reset d) chunks = Ok d1 /\
+                sum keccakf d1 = Ok (alg_spec a (concat chunks), d2) /\
+                WF d2 /\ same_cfg (alg_new a) d2.
+Proof.
+  intros Hwf Hcfg.
+  destruct (reset_then_chunks keccakf d chunks Hwf) as (d1 & d2 & Hw & Hs & Hwf2 & Hc2).
+  exists d1, d2. rewrite (cfg_alg a d _ Hcfg) in Hs.
+  split; [exact Hw|]. split; [exact Hs|]. split; [exact Hwf2|].
+  exact (same_cfg_trans _ _ _ Hcfg Hc2).
+Qed.
+
+Lemma compute_hash_history_independent a d x :
+  WF d -> same_cfg (alg_new a) d ->
+  exists d', computeHash keccakf d x = Ok (alg_spec a x, d') /\ WF d' /\ same_cfg (alg_new a) d'.
+Proof.
+  intros Hwf Hcfg.
+  destruct (compute_hash_spec keccakf d x Hwf) as (d' & Hc & Hwf' & Hc').
+  exists d'. rewrite (cfg_alg a d _ Hcfg) in Hc.
+  split; [exact Hc|]. split; [exact Hwf'|exact (same_cfg_trans _ _ _ Hcfg Hc')].
+Qed.
+
+Lemma fresh_object_first_write a chunks :
+  exists d1 d2, writes keccakf (alg_new a) chunks = Ok d1 /\
+                sum keccakf d1 = Ok (alg_spec a (concat chunks), d2) /\ WF d2.
+Proof.
+  assert (Hc : cfg_ok (alg_new a) /\ Fresh (alg_new a)).
+  { destruct a; apply new_sponge_cfg;
+      first [apply rate_ok_sha3_256|apply rate_ok_sha3_384|apply rate_ok_keccak_256|vm_compute; lia]. }
+  destruct Hc as [Hc Hfr].
+  destruct (fresh_then_chunks keccakf (alg_new a) chunks Hc Hfr) as (d1 & d2 & Hw & Hs & Hwf & _).
+  exists d1, d2. rewrite (cfg_alg a (alg_new a) _ (same_cfg_refl _)) in Hs.
+  split; [exact Hw|]. split; [exact Hs|exact Hwf].
+Qed.
+
+Lemma oneshot_sha3_256 x :
+  ComputeSHA3_256 keccakf x = Ok (SHA3_256 x) /\
+  exists d', computeHash keccakf NewSHA3_256 x = Ok (SHA3_256 x, d').
+Proof.
+  split; [apply (oneshot_spec keccakf x)|].
+  destruct (compute_hash_history_independent SHA3_256_alg NewSHA3_256 x NewSHA3_256_wf (same_cfg_refl _))
+    as (d' & H & _). exists d'. exact H.
+Qed.
